@@ -3,12 +3,14 @@ package main
 import (
 	"encoding/json"
 	"fmt"
+	"math"
 	"math/rand"
 
 	"github.com/aclements/go-moremath/stats"
 )
 
-// C13: StreamStats histories. Op: T=0 Add(acc I, X); T=1 Combine(acc I, acc J); T=2 observe acc I.
+// C13: StreamStats histories. Op: T=0 Add(acc I, X); T=1 Combine(acc I, acc J) (I == J allowed); T=2 observe acc I.
+// Values must be finite (the model is over Q); every op is followed by the nine observables of acc I.
 type c13Op struct {
 	T int `json:"t"`
 	I int `json:"i"`
@@ -34,19 +36,26 @@ func c13Run(raw []byte) (*Line, error) {
 	}
 	accs := make([]stats.StreamStats, c.K)
 	l := &Line{}
-	l.I(13).I(c.K).I(len(c.Ops))
+	l.I(13).I(c.K)
+	// what a fresh (zero value, never touched) accumulator reports: the reference for every
+	// accumulator that is still or again empty (Check/C13.v compares Min/Max/Mean/RMS of an
+	// empty accumulator with these)
+	var fresh stats.StreamStats
+	c13Observe(l, &fresh)
+	l.I(len(c.Ops))
 	for _, op := range c.Ops {
 		if op.I < 0 || op.I >= c.K || op.J < 0 || op.J >= c.K {
 			return nil, fmt.Errorf("bad index")
 		}
 		switch op.T {
 		case 0:
+			if x := float64(op.X); math.IsNaN(x) || math.IsInf(x, 0) {
+				return nil, fmt.Errorf("non-finite value") // the model is over Q (meta/C13.json, assumptions)
+			}
 			accs[op.I].Add(float64(op.X))
 			l.I(0).I(op.I).F(float64(op.X))
 		case 1:
-			if op.I == op.J {
-				return nil, fmt.Errorf("self combine")
-			}
+			// op.I == op.J is s.Combine(s): the statistics of the values taken twice
 			accs[op.I].Combine(&accs[op.J])
 			l.I(1).I(op.I).I(op.J)
 		case 2:
@@ -92,6 +101,150 @@ func c13Bracketings(lo, hi int) [][]c13Op {
 		}
 	}
 	return res
+}
+
+// special value sets: all-equal, signed zeros, two values, magnitudes near the ends of the range in
+// which squares and products of deviations neither overflow nor underflow (|x| in 2^-400..2^400)
+func c13Special(rng *rand.Rand, n int) []float64 {
+	xs := make([]float64, n)
+	kind := rng.Intn(6)
+	v := genValue(rng, rng.Intn(4))
+	if rng.Intn(2) == 0 {
+		v += float64(rng.Int63n(2e9)-1e9) * 8
+	}
+	for i := range xs {
+		switch kind {
+		case 0: // all equal
+			xs[i] = v
+		case 1: // signed zeros and small integers
+			switch rng.Intn(4) {
+			case 0:
+				xs[i] = math.Copysign(0, -1)
+			case 1:
+				xs[i] = 0
+			default:
+				xs[i] = float64(rng.Intn(3) - 1)
+			}
+		case 2: // only signed zeros
+			if rng.Intn(2) == 0 {
+				xs[i] = math.Copysign(0, -1)
+			}
+		case 3: // tiny magnitudes
+			xs[i] = math.Ldexp(float64(rng.Intn(17)-8), -400)
+		case 4: // huge magnitudes
+			xs[i] = math.Ldexp(float64(rng.Intn(17)-8), 400)
+		default: // two distinct values, many repeats
+			xs[i] = v
+			if rng.Intn(2) == 0 {
+				xs[i] = v + 1
+			}
+		}
+	}
+	return xs
+}
+
+func c13Structured(thorough bool, rng *rand.Rand, emit func(interface{})) {
+	reps := 2
+	if thorough {
+		reps = 12
+	}
+	vals := func(n int) []float64 {
+		if rng.Intn(2) == 0 {
+			return c13Special(rng, n)
+		}
+		return c13Values(rng, n)
+	}
+	add := func(ops []c13Op, a int, xs []float64) []c13Op {
+		for _, x := range xs {
+			ops = append(ops, c13Op{T: 0, I: a, X: F64(x)})
+		}
+		return ops
+	}
+	for r := 0; r < reps; r++ {
+		// d1: special value sets through the split test (one split point, both directions)
+		for n := 1; n <= 6; n++ {
+			xs := c13Special(rng, n)
+			p := rng.Intn(n + 1)
+			ops := add(add(nil, 0, xs[:p]), 1, xs[p:])
+			ops = append(ops, c13Op{T: 1, I: 0, J: 1}, c13Op{T: 2, I: 1}, c13Op{T: 1, I: 1, J: 0}, c13Op{T: 2, I: 0})
+			emit(c13Case{K: 2, Ops: ops})
+		}
+		// d2: Combine INTO an empty accumulator, then Add to it; Add after Combine; the argument observed
+		for n := 1; n <= 4; n++ {
+			xs := vals(n + 3)
+			ops := add(nil, 1, xs[:n])
+			ops = append(ops, c13Op{T: 1, I: 0, J: 1}, c13Op{T: 2, I: 1})
+			ops = add(ops, 0, xs[n:n+2])
+			ops = append(ops, c13Op{T: 1, I: 2, J: 0}, c13Op{T: 1, I: 0, J: 2}, c13Op{T: 2, I: 2})
+			ops = add(ops, 0, xs[n+2:])
+			ops = add(ops, 2, xs[:1])
+			emit(c13Case{K: 3, Ops: ops})
+		}
+		// d3: one side has exactly one value (either side), other side 1..5
+		for n := 1; n <= 5; n++ {
+			xs := vals(n + 1)
+			for dir := 0; dir < 2; dir++ {
+				ops := add(add(nil, 0, xs[:1]), 1, xs[1:])
+				ops = append(ops, c13Op{T: 1, I: dir, J: 1 - dir}, c13Op{T: 2, I: 1 - dir})
+				ops = add(ops, dir, xs[:1])
+				emit(c13Case{K: 2, Ops: ops})
+			}
+		}
+		// d4: only empty accumulators are combined (also with themselves), observed, then used
+		{
+			xs := vals(3)
+			ops := []c13Op{{T: 2, I: 0}, {T: 1, I: 0, J: 1}, {T: 2, I: 1}, {T: 1, I: 1, J: 1}, {T: 1, I: 2, J: 0}, {T: 1, I: 0, J: 2}}
+			ops = add(ops, 0, xs)
+			ops = append(ops, c13Op{T: 1, I: 0, J: 1}, c13Op{T: 1, I: 1, J: 2}, c13Op{T: 2, I: 1}, c13Op{T: 1, I: 2, J: 0})
+			emit(c13Case{K: 3, Ops: ops})
+		}
+		// d5: s.Combine(s) chains: the count doubles; then Add, then merge with a small accumulator
+		for _, dbl := range []int{1, 2, 5, 24, 31, 33, 52, 54, 60} {
+			n := 1 + rng.Intn(4)
+			xs := vals(n + 4)
+			ops := add(nil, 0, xs[:n])
+			for i := 0; i < dbl; i++ {
+				ops = append(ops, c13Op{T: 1, I: 0, J: 0})
+			}
+			ops = add(ops, 0, xs[n:n+2])
+			ops = add(ops, 1, xs[n+2:])
+			ops = append(ops, c13Op{T: 1, I: 1, J: 0}, c13Op{T: 1, I: 0, J: 1}, c13Op{T: 2, I: 1})
+			emit(c13Case{K: 2, Ops: ops})
+		}
+		// d6: two accumulators with counts that have many significant bits (double-and-add), both
+		// beyond 2^32 resp. 2^53, merged both ways: float64(Count) conversions, products of counts
+		for _, bits := range []int{20, 33, 40, 55, 60} {
+			xs := vals(8)
+			var ops []c13Op
+			for a := 0; a < 2; a++ {
+				ops = add(ops, a, xs[4*a:4*a+1])
+				for i := 0; i < bits-a; i++ {
+					ops = append(ops, c13Op{T: 1, I: a, J: a})
+					if rng.Intn(2) == 0 {
+						ops = append(ops, c13Op{T: 0, I: a, X: F64(xs[4*a+1+rng.Intn(3)])})
+					}
+				}
+			}
+			ops = append(ops, c13Op{T: 1, I: 2, J: 0}, c13Op{T: 1, I: 2, J: 1}, c13Op{T: 1, I: 1, J: 0}, c13Op{T: 2, I: 0}, c13Op{T: 0, I: 1, X: F64(xs[7])})
+			emit(c13Case{K: 3, Ops: ops})
+		}
+		// d7: unequal parts: a chain of merges of fresh singletons into one accumulator (left comb),
+		// then the singletons merged backwards into each other (right comb, repeated combination)
+		{
+			n := 6 + rng.Intn(10)
+			xs := vals(n)
+			var ops []c13Op
+			for i := 0; i < n; i++ {
+				ops = append(ops, c13Op{T: 0, I: i + 1, X: F64(xs[i])}, c13Op{T: 1, I: 0, J: i + 1})
+			}
+			// right comb: merge backwards into the last
+			for i := n - 1; i >= 1; i-- {
+				ops = append(ops, c13Op{T: 1, I: i, J: i + 1})
+			}
+			ops = append(ops, c13Op{T: 2, I: 0})
+			emit(c13Case{K: n + 2, Ops: ops})
+		}
+	}
 }
 
 func c13Gen(tier string, rng *rand.Rand, emit func(interface{})) {
@@ -145,8 +298,10 @@ func c13Gen(tier string, rng *rand.Rand, emit func(interface{})) {
 			emit(c13Case{K: m, Ops: ops})
 		}
 	}
+	// (d) structured histories the random stream reaches rarely (audit round 2b)
+	c13Structured(thorough, rng, emit)
 	// (c) random histories: merge trees, repeated combination, interleaved adds
-	nRand := 400
+	nRand := 330
 	if thorough {
 		nRand = 6000
 	}
@@ -159,18 +314,30 @@ func c13Gen(tier string, rng *rand.Rand, emit func(interface{})) {
 		xs := c13Values(rng, total)
 		var ops []c13Op
 		pc := 0.02 + rng.Float64()*0.3
-		// repeated combination multiplies counts; keep them far below 2^53 (exact in float64)
+		// repeated combination multiplies counts; keep them below 2^62 (uint wraps at 2^64;
+		// above 2^53 float64(Count) rounds, which the tolerances allow for)
 		cnt := make([]uint64, k)
 		combine := func(i, j int) {
-			if cnt[i]+cnt[j] < 1<<40 {
+			if cnt[i]+cnt[j] < 1<<62 {
 				cnt[i] += cnt[j]
 				ops = append(ops, c13Op{T: 1, I: i, J: j})
+				if rng.Intn(2) == 0 { // Combine must leave its argument alone
+					ops = append(ops, c13Op{T: 2, I: j})
+				}
 			}
+		}
+		pself := 0.0
+		if rng.Intn(4) == 0 {
+			pself = 0.05 + rng.Float64()*0.3
 		}
 		for _, x := range xs {
 			a := rng.Intn(k)
 			cnt[a]++
 			ops = append(ops, c13Op{T: 0, I: a, X: F64(x)})
+			if rng.Float64() < pself {
+				i := rng.Intn(k)
+				combine(i, i)
+			}
 			for k > 1 && rng.Float64() < pc {
 				i := rng.Intn(k)
 				j := rng.Intn(k - 1)
